@@ -27,6 +27,7 @@ def _c03(tier, seed):
         runs.append("H_C03_serialize(%d,%d)" % (lo, hi))
         runs.append("H_C03_open(%d,%d)" % (lo, hi))
     runs.append("H_C03_unencrypted(%d)" % (40 if q else 96))
+    runs += ["H_C03_overlap(%d,%d)" % (n, w) for n in ((4, 24) if q else (0, 4, 13, 24, 40)) for w in (0, 1, 2, 3)]
     return [dict(name="envelope", pkg="internal/mtproto/messages", harness=["harness/messages/ref.go", "harness/messages/c03.go"],
                  runs=runs, validate_runs=["H_C03_serialize(0,40)", "H_C03_open(0,40)", "H_C03_unencrypted(40)"], solver="z3")]
 
